@@ -153,6 +153,11 @@ LangSensitive == {"[[", "]]", "[[:", "[[Image:a.png|", "Image:a.png", "File:", "
                   "<gallery>", "<gallery caption=x>", "<imagemap>", "<pages from=1 to=2 index=x/>", "<pages from=a to=b/>",
                   "rect 0 0 1 1 [[a]]", "default [[a]]"} \cup TemplateSyntax
 
+\* the lexemes whose repetition interacts (apostrophe runs, brackets, table / list / section starters,
+\* style and ref tags, template braces): the quick tier pumps every pair over them (growth clause)
+PumpCore == {"a", "SP", "NL", "''", "'''", "'''''", "[[", "]]", "|", "{|", "|-", "*", ":", "==", "<b>", "<ref>", "</ref>",
+             "{{", "}}", "[http://ex.org"}
+
 VARIABLES seq, nest, peak
 vars == <<seq, nest, peak>>
 
@@ -185,7 +190,7 @@ Balance(s) == IF s = <<>> THEN 0
                    ELSE IF x \in Closers /\ b > 0 THEN b - 1 ELSE b
 CounterIsBalance == nest = Balance(seq)
 AlphabetsNested == Core \subseteq Extended /\ Extended \subseteq Markup /\ Markup \subseteq Full
-                   /\ Structural \subseteq Markup
+                   /\ Structural \subseteq Markup /\ PumpCore \subseteq Markup
                    /\ Openers \cap Closers = {}
 
 \* P-ENUM: every generated sequence of the requested lengths, with its nesting profile
@@ -193,5 +198,6 @@ EmitSeq == (Len(seq) >= EmitFrom) =>
              PrintT("@@" \o ToJson([s |-> seq, net |-> nest, peak |-> peak]))
 \* once per run: the alphabet itself, so that the harness can check its concretisation table
 ASSUME PrintT("@@" \o ToJson([alphabet |-> Lexemes, openers |-> Openers \cap Lexemes, closers |-> Closers \cap Lexemes,
-                              structural |-> Structural \cap Lexemes, langsensitive |-> LangSensitive \cap Lexemes]))
+                              structural |-> Structural \cap Lexemes, langsensitive |-> LangSensitive \cap Lexemes,
+                              pumpcore |-> PumpCore \cap Lexemes]))
 =============================================================================
